@@ -69,6 +69,12 @@ def run(tier, seed, selftest=False, replay=None):
             idx = [i + 1 for i, u in enumerate(c["u"]) if u["k"] == "C"]
             rnd.shuffle(idx)
             c["queries"] = sorted(idx[:nq])
+            vq = []
+            for qi in c["queries"][:3]:
+                g = c["u"][qi - 1]
+                x = {"k": "V", "n": "Xv", "a": [g]}
+                vq += [x, {"k": "V", "n": "Av", "a": [x]}]
+            c["vqueries"] = vq
         max_leaves = 150 if tier == "quick" else 600
     T("generated %d table cases" % len(cases))
     d = subdir("c09")
